@@ -165,6 +165,38 @@ pub fn check_term(t: &RTerm, alphabet: &str, idx: u64, max_size: usize, l: &mut 
     }
 }
 
+
+/// Captured-environment family: `[[(lam (lam BODY)) c1] c2]` (and the 3-binder analogue)
+/// where BODY ranges over every term of size <= max with the d outer binders in scope.
+/// The whole-term enumeration only reaches closures over one captured value at its size
+/// bound; discharging a closure over several *different* captured values is a distinct
+/// shortcut in the code (environment indexing from either end), so it gets its own family.
+fn env_family_total(en: &mut Enumerator, d: usize, max: usize) -> u64 {
+    (1..=max).map(|s| en.count(s, d)).sum()
+}
+
+fn env_family_term(en: &mut Enumerator, d: usize, max: usize, mut idx: u64) -> RTerm {
+    use std::rc::Rc;
+    let mut body = None;
+    for s in 1..=max {
+        let c = en.count(s, d);
+        if idx < c {
+            body = Some(en.unrank(s, d, idx));
+            break;
+        }
+        idx -= c;
+    }
+    let mut t = body.expect("index in range");
+    for _ in 0..d {
+        t = RTerm::Lam(Rc::new(t));
+    }
+    let consts = [rterm::RConst::int(0), rterm::RConst::int(1), rterm::RConst::Bool(true)];
+    for c in consts.iter().take(d) {
+        t = RTerm::App(Rc::new(t), Rc::new(RTerm::Con(Rc::new(c.clone()))));
+    }
+    t
+}
+
 pub fn run(tier: Tier, replay: Option<String>) -> i32 {
     let max_size = match tier {
         Tier::Quick => 5,
@@ -210,7 +242,12 @@ pub fn run(tier: Tier, replay: Option<String>) -> i32 {
     let mut e1 = Enumerator::new(small_alphabet(0, false));
     let total_small = e1.total(small_max);
     let sizes_small = e1.sizes(small_max);
-    let total = total_full + total_small;
+    // (3) captured-environment family, bodies one size below the full bound
+    let env_max = max_size - 1;
+    let mut e2 = Enumerator::new(c03_alphabet(0, false));
+    let total_env2 = env_family_total(&mut e2, 2, env_max);
+    let total_env3 = env_family_total(&mut e2, 3, env_max - 1);
+    let total = total_full + total_small + total_env2 + total_env3;
     let cap = match tier {
         Tier::Quick => Duration::from_secs(50),
         Tier::Thorough => Duration::from_secs(1500),
@@ -224,9 +261,17 @@ pub fn run(tier: Tier, replay: Option<String>) -> i32 {
             if idx < total_full {
                 let t = en.unrank_global(max_size, idx);
                 check_term(&t, "c03-closed", idx, max_size, l);
-            } else {
+            } else if idx < total_full + total_small {
                 let t = en_small.unrank_global(small_max, idx - total_full);
                 check_term(&t, "small-closed", idx - total_full, small_max, l);
+            } else if idx < total_full + total_small + total_env2 {
+                let i = idx - total_full - total_small;
+                let t = env_family_term(en, 2, env_max, i);
+                check_term(&t, "env2", i, env_max, l);
+            } else {
+                let i = idx - total_full - total_small - total_env2;
+                let t = env_family_term(en, 3, env_max - 1, i);
+                check_term(&t, "env3", i, env_max - 1, l);
             }
         },
         |(_, _, l)| l,
@@ -260,6 +305,7 @@ pub fn run(tier: Tier, replay: Option<String>) -> i32 {
     run.set("terms_in_space", total);
     run.set("max_size", max_size as u64);
     run.set("terms_per_size", json!(sizes));
+    run.set("captured_environment_family_terms", json!({"two_binders": total_env2, "three_binders": total_env3, "body_max_size": env_max}));
     run.set("small_alphabet_max_size", small_max as u64);
     run.set("small_alphabet_terms_per_size", json!(sizes_small));
     run.set("states", cases);
@@ -267,7 +313,7 @@ pub fn run(tier: Tier, replay: Option<String>) -> i32 {
     run.set("traces_validated_against_impl", ok + fail);
     run.set("evaluations", cases);
     run.set("distinct_nontrivial", distinct.len() as u64);
-    run.set("rule", "every closed term of size <= max_size over the C03 alphabet (9 constants, 8 builtins one per force/arity class, constr tags {0,1} with <=2 fields, case with <=2 branches) x 5 semantics variants, plus every closed term of size <= max_size+2 over a small alphabet (2 constants, 2 builtins, 1 tag, <=1 field, <=1 branch); distinct_nontrivial = number of distinct result values");
+    run.set("rule", "every closed term of size <= max_size over the C03 alphabet (9 constants, 8 builtins one per force/arity class, constr tags {0,1} with <=2 fields, case with <=2 branches) x 5 semantics variants, plus every closed term of size <= max_size+2 over a small alphabet (2 constants, 2 builtins, 1 tag, <=1 field, <=1 branch), plus the captured-environment family [[(lam (lam BODY)) 0] 1] / [[[(lam (lam (lam BODY))) 0] 1] True] for every BODY of size < max_size with the outer binders in scope; distinct_nontrivial = number of distinct result values");
     run.set("both_succeed", ok);
     run.set("both_fail", fail);
     run.set("oracle_undefined", undef);
@@ -308,7 +354,11 @@ fn replay_case(path: &str) -> i32 {
     let idx = case["index"].as_u64().expect("index");
     let alphabet = case["alphabet"].as_str().unwrap_or("c03-closed").to_string();
     let mut en = Enumerator::new(if alphabet == "small-closed" { small_alphabet(0, false) } else { c03_alphabet(0, false) });
-    let t = en.unrank_global(max_size, idx);
+    let t = match alphabet.as_str() {
+        "env2" => env_family_term(&mut en, 2, max_size, idx),
+        "env3" => env_family_term(&mut en, 3, max_size, idx),
+        _ => en.unrank_global(max_size, idx),
+    };
     let mut l = Local::default();
     check_term(&t, &alphabet, idx, max_size, &mut l);
     println!("replaying term #{idx}: {}", rterm::show(&t));
